@@ -154,7 +154,7 @@ def c10(c):
 def c14(c):
     c.std([dict(src='c14_sums.cpp', build='plain', shards={'quick': 5, 'thorough': 5}),
            dict(src='c14_sums.cpp', build='asan', shards={'quick': 2, 'thorough': 5}, defs=['-DVF_SMALL_N'])])
-    for k in ('values_summed', 'bins_checked', 'sequences_where_naive_summation_breaks_bound', 'runs_with_N>=1e6'):
+    for k in ('values_summed', 'bins_checked', 'sequences_where_naive_summation_breaks_bound', 'runs_with_N>=1e6', 'runs_with_sums_near_the_smallest_normal_number'):
         c.require(k)
 
 
@@ -228,7 +228,7 @@ def c11(c):
     c.std([dict(src='c11_bins.cpp', build='asan', shards={'quick': 5, 'thorough': 5}, extra_inc=SHIM, libs=['-pthread']),
            dict(src='c11_bins.cpp', build='clang', shards={'quick': 2, 'thorough': 5}, extra_inc=SHIM, libs=['-pthread'])])
     for k in ('placements_checked', 'placements_at_an_edge(ambiguous)', 'placements_outside_or_nonfinite', 'bins_checked', 'differential_bins_checked',
-              'runs_plain', 'runs_vegas', 'runs_multi_channel', 'runs_through_mpi_shim'):
+              'runs_plain', 'runs_vegas', 'runs_multi_channel', 'runs_through_mpi_shim', 'accumulated_bins_checked', 'accumulated_runs_with_a_bin_empty_in_some_iterations_only'):
         c.require(k)
 
 
@@ -310,7 +310,8 @@ def _t_engine_variants(engines):
            "grid, multi-channel default weights, multi-channel user weights with a disabled channel and distributions; distribution names incl. "
            "empty / blank / leading blanks), float/double/long double, engines mt19937 / minstd_rand / ranlux48 (thorough: all nine). The rolled-back "
            "checkpoint must serialise byte-identically to a separately executed run of only the first k iterations, have the same generator, "
-           "k>n must throw std::out_of_range and leave the text unchanged, and resuming must reproduce the original final text. "
+           "k>n must throw std::out_of_range and leave the text unchanged, resuming must reproduce the original final text, and a DIFFERENT "
+           "continuation (2..3 iterations with other numbers of calls) must end in the same text as that continuation of the k-iteration run. "
            "non-trivial = k<n or reloaded from text; distinct = (flavour, T, engine, calls, k, reload flags, configuration).",
       assumptions=["the box m<=4 (6) x all k x reload flags is enumerated per sampled configuration; configurations (grid, weights, names, alpha/beta) are seeded",
                    "ASan watches for empty-vector access; valgrind memcheck (thorough) for uninitialised members after reload + rollback"])
@@ -320,7 +321,7 @@ def c15(c):
     if c.tier == 'thorough':
         progs.append(dict(src='c15_rollback.cpp', build='memcheck', variants=[v for v in _t_engine_variants(ENGINES9[:2]) if not v[0].startswith('ldouble')], shards={'thorough': 2}, args=['--tier', 'quick']))
     c.std(progs)
-    for k in ('rollbacks_to_0', 'rollbacks_to_n', 'rollbacks_beyond_n', 'rollbacks_to_middle', 'reloaded_before_rollback', 'resumes_after_rollback', 'second_rollbacks_after_resume'):
+    for k in ('rollbacks_to_0', 'rollbacks_to_n', 'rollbacks_beyond_n', 'rollbacks_to_middle', 'reloaded_before_rollback', 'resumes_after_rollback', 'second_rollbacks_after_resume', 'different_continuations_after_rollback'):
         c.require(k)
 
 
